@@ -20,6 +20,7 @@ func c17(c *eng.Ctx, r *eng.Report) {
 		"R17.3 PackForCast never returns more than the per-block limit, checkNonce sorts first, never packs a transaction on the `expected < nonce` edge, and every transaction that advances its sender's expected nonce is packed; " +
 		"R17.4 every field of TxPool/simpleContainer is of a thread-safe type, immutable after construction, or accessed only with its mutex held (lockset over all access sites, helper functions checked at their call sites). " +
 		"R17.8 the pending container's remove takes out every hash it is handed: on every path to a return the whole parameter list — not a window of it — has been passed to the map's Removes (directly or through a helper of the container that does so); a transaction that is marked executed but stays pending is packed again; " +
+		"R17.9 MarkExecuted processes every block it is handed: no return of MarkExecuted depends on the pool's own state (a remembered `last marked` block, a cache) — after a reorg that comes back to the same block the second MarkExecuted must write the executed records again, UnMarkExecuted having deleted them; " +
 		"R17.6 what the pool iterates over is one atomic snapshot of the pending map: every simpleContainer method that hands out a slice returns the result of a single call on the underlying map (possibly re-sliced), never a slice assembled from separate per-key lookups — between listing the keys and looking them up MarkExecuted or an eviction may remove an entry, and the hole is a nil the packer type-asserts; " +
 		"R17.7 the executed-record batch, which lives as long as the pool, is Reset() after every Write() on every path (a batch that keeps its content replays old executed marks with the next block, undoing an UnMarkExecuted); " +
 		"R17.5 the pending container's push stores the transaction unless the container is full — no other drop condition (the path a reorged block's transactions return through). " +
@@ -79,6 +80,7 @@ func c17(c *eng.Ctx, r *eng.Report) {
 	c17PushTotal(c, r)
 	c17Snapshot(c, r)
 	c17RemoveAll(c, r)
+	c17MarkEveryBlock(c, r)
 	r.Min("R17.7", 3)
 	batchResetAs(c, r, "R17.7", "service", 2)
 }
@@ -736,4 +738,45 @@ func c17RemoveAll(c *eng.Ctx, r *eng.Report) {
 	}
 	ok, where := whole(fn, 0)
 	r.Check(ok, rule, "remove:whole-list", c.Pos(fn.Pos()), "every return is preceded by Removes(whole parameter list)", "(*simpleContainer).remove can return ("+where+") without having passed its whole hash list to the pending map's Removes — only windows of it, or nothing: the hashes left out stay pending although MarkExecuted has written their executed records, and the next PackForCast packs them again")
+}
+
+// c17MarkEveryBlock: see R17.9.
+func c17MarkEveryBlock(c *eng.Ctx, r *eng.Report) {
+	const rule = "R17.9"
+	r.Min(rule, 1)
+	fn := c.Func("service", "(*TxPool).MarkExecuted")
+	if !r.Anchor(fn != nil, rule, "(*TxPool).MarkExecuted") {
+		return
+	}
+	recv := fn.Params[0]
+	bad := ""
+	for _, re := range eng.Returns(fn) {
+		for _, cd := range eng.EdgeConds(re.Ret.Block()) {
+			// a condition computed from a field of the pool itself
+			seen := map[ssa.Value]bool{}
+			var walk func(v ssa.Value, d int) bool
+			walk = func(v ssa.Value, d int) bool {
+				if v == nil || d > 8 || seen[v] {
+					return false
+				}
+				seen[v] = true
+				if fa, ok := v.(*ssa.FieldAddr); ok && fa.X == ssa.Value(recv) {
+					return true
+				}
+				if in, ok := v.(ssa.Instruction); ok {
+					var ops []*ssa.Value
+					for _, o := range in.Operands(ops) {
+						if *o != nil && walk(*o, d+1) {
+							return true
+						}
+					}
+				}
+				return false
+			}
+			if walk(cd.V, 0) {
+				bad = c.Pos(re.Ret.Pos()) + " under " + eng.Desc(cd.V)
+			}
+		}
+	}
+	r.Check(bad == "", rule, "MarkExecuted:every-block", c.Pos(fn.Pos()), "no return depends on the pool's own state", "MarkExecuted returns at "+bad+", a condition on what the pool remembers rather than on the block it was handed: in the history MarkExecuted(B), UnMarkExecuted(B), MarkExecuted(B) — a one-block reorg that comes back — the second mark does nothing, B's transactions keep no executed record, stay pending and are packed again")
 }
